@@ -406,6 +406,36 @@ def small(hyps, limit=120):
     return [h for h in hyps if len(subterms([h])) <= limit]
 
 
+def abstract_free(terms, var, min_size=4):
+    """replace, consistently across `terms`, every maximal compound real subterm that does not mention `var` by a fresh
+    constant (a generalisation: an identity proved for the abstracted terms holds for the originals)"""
+    has = {}
+
+    def mentions(t):
+        k = t.get_id()
+        if k not in has:
+            has[k] = (t, t.eq(var) or any(mentions(c) for c in t.children()))
+        return has[k][1]
+    fresh = {}
+    memo = {}
+
+    def go(t):
+        k = t.get_id()
+        if k in memo:
+            return memo[k][1]
+        if z3.is_real(t) and z3.is_app(t) and t.num_args() > 0 and not mentions(t) and len(subterms([t])) >= min_size:
+            if k not in fresh:
+                fresh[k] = (t, z3.Real('free!%d' % len(fresh)))
+            r = fresh[k][1]
+        elif z3.is_app(t) and t.num_args() > 0:
+            r = t.decl()(*[go(c) for c in t.children()])
+        else:
+            r = t
+        memo[k] = (t, r)
+        return r
+    return [go(t) for t in terms], {v.decl().name(): t for t, v in fresh.values()}
+
+
 def generalise(u, v):
     """replace the maximal compound subterms occurring in BOTH u and v by fresh real variables"""
     def ids(t, acc):
